@@ -33,6 +33,44 @@ LEVEL_TEXT = ("Lean 4 theorems. Identifiers: joinS_inj (components free of the s
 LEVEL_NOTE = "Assurance = weaker of (theorems on the naming twins and on the tokenizer model, naming correspondence, the whole-output oracle on generated resource sets)."
 TECHNIQUE = "Lean 4 proof (separator-join injectivity; verified configuration builder: closed pieces compose into well-formed files) + model/implementation correspondence on identifier constructors + whole-output duplicate/arity/lexical oracle on generated resource sets"
 
+TEMPLATES = ["internal/configs/version1/nginx.ingress.tmpl", "internal/configs/version1/nginx-plus.ingress.tmpl",
+             "internal/configs/version2/nginx.virtualserver.tmpl", "internal/configs/version2/nginx-plus.virtualserver.tmpl",
+             "internal/configs/version2/nginx.transportserver.tmpl", "internal/configs/version2/nginx-plus.transportserver.tmpl",
+             "internal/configs/version1/nginx.tmpl", "internal/configs/version1/nginx-plus.tmpl"]
+TNAMES = []
+
+
+def regenerate(tier):
+    """tools/templates on /repo's template files -> lean/Nic/Gen/Templates.lean (terms of Nic.Tmpl.TL). The analysis
+    `wellFormedForAll` is run on them by the driver in run_cases."""
+    import subprocess
+    tooldir = os.path.join(vlib.VERIF, "tools", "templates")
+    binp = os.path.join(vlib.VERIF, ".build", "templates")
+    gen = os.path.join(vlib.LEAN, "Nic", "Gen", "Templates.lean")
+    os.makedirs(os.path.dirname(gen), exist_ok=True)
+    with vlib.Lock("tr-templates"):
+        e = vlib.goenv()
+        e["GOFLAGS"] = ""
+        p = subprocess.run(["go", "build", "-o", binp, "."], cwd=tooldir, env=e, capture_output=True, text=True)
+        if p.returncode != 0:
+            return dict(broken=[("translator-build:templates", p.stderr[-2000:])], obligations=1, discharged=0)
+        p = subprocess.run([binp] + [os.path.join(vlib.REPO, t) for t in TEMPLATES], capture_output=True, text=True)
+        if p.returncode != 0:
+            return dict(broken=[("translator-run:templates", "a template no longer parses: " + p.stderr[-1500:])], obligations=len(TEMPLATES), discharged=0)
+        ts = json.loads(p.stdout)
+        body = ["import Nic.Model.Tmpl", "/- GENERATED by props/C07.py (tools/templates) from /repo — do not edit. -/", "namespace Nic.Gen.Templates", "open Nic.Tmpl", ""]
+        for t in ts:
+            body.append("/-- %s -/\ndef %s : TL :=\n  %s\n" % (os.path.relpath(t["file"], vlib.REPO), t["name"], t["lean"]))
+        body.append("def table : List (String × TL) := [" + ", ".join('("%s", %s)' % (t["name"], t["name"]) for t in ts) + "]\n\nend Nic.Gen.Templates\n")
+        text = "\n".join(body)
+        if not os.path.exists(gen) or open(gen).read() != text:
+            open(gen, "w").write(text)
+    global TNAMES
+    TNAMES = [t["name"] for t in ts]
+    return dict(broken=[], obligations=0, discharged=0,
+                summary=dict(templates={t["name"]: dict(holes=t["holes"], texts=t["texts"], ifs=t["ifs"], ranges=t["loops"]) for t in ts}))
+
+
 NS = ["a", "a-b"]
 NAMES = ["b", "c", "b-c", "b-x", "x"]
 HOSTS = ["x-y.ex", "y.ex", "c.ex", "h.ex"]
@@ -104,6 +142,9 @@ def gen(rng, tier):
                 if tier == "quick" and len(flavours) == 2 and (len(cases) + plus) % 2:
                     continue
                 cases.append(dict(line="injwf fx=%s plus=%d path=%s val=%s" % (fx_, plus, path, hx(v)), tags=["value-variation"]))
+    # template analysis on the regenerated template terms
+    for n in TNAMES:
+        cases.append(dict(line="tmpl name=%s" % n, tags=["template-analysis"], nontrivial=True))
     # naming correspondence
     alpha = ["a", "b", "c", "a-b", "b-c", "x.y", "a.b-c", "vsr", "vs", "ts", "pol", "0", "a--b"]
     for _ in range(400 if tier == "quick" else 5000):
@@ -130,8 +171,12 @@ def load_replay(obj):
 
 
 def judge(case, impl, model, spec):
-    if impl is None:
+    if impl is None and not case["line"].startswith("tmpl "):
         return dict(corr="missing output")
+    if case["line"].startswith("tmpl "):
+        if model != "ok":
+            return dict(corr="template analysis (all branch combinations, any number of iterations, any values of the expected classes): %s" % model)
+        return dict(nontrivial=True)
     if case["line"].startswith("nm "):
         if impl != model:
             return dict(corr="identifier constructor: code %r, Lean twin %r" % (impl, model))
